@@ -8,6 +8,11 @@ NOT_APPLICABLE = {
     'C03': 'C++ exception capture/transport/rethrow: CBMC\'s usable front end here is C, extraction drops try/catch, so no contract can mention the behaviour (DESIGN.md §6)',
 }
 CLAIMS = {
+    'C16': {
+        'technique': 'CBMC loop-free harnesses with contract stubs (limit_delta, get_critical_task), rely/guarantee on the slot flag and dfcc loop contracts on the slot search, sliced from src/tbb',
+        'text': 'limit_delta equals the change in granted workers min(limit,new)-min(limit,new-delta) for all int triples without overflow; get_critical_task re-spawns a displaced task exactly once in its own context and under its own isolation tag and runs the critical task under the critical task\'s; try_occupy returns true only to the caller whose exchange flipped the flag; occupy_free_slot returns out_of_arena or an index inside [reserved|0, num_slots) that this caller claimed (a worker never a reserved one), leaves no other slot claimed, and my_limit only grows to cover it - for every arena size and any interference on the slots.',
+        'note': 'Trusted: arena::get_critical_task / r1::spawn / observers as stubs, FastRandom arbitrary, SC atomics. Not decided: instant thread counts, observer pairing, global_control, priorities over time, mandatory concurrency, update_allotment, update_request.',
+    },
     'C12': {
         'technique': 'CBMC loop-free / width-bounded-unwinding harnesses on the split-order key arithmetic (bit reversal table, regular/dummy keys, parent buckets) and rely/guarantee on my_bucket_count for its writers, sliced from _concurrent_unordered_base.h and _machine.h',
         'text': 'For all 2^64 hashes and every table size 2^k: bit reversal is an involution mapping bit i to 63-i; regular keys are odd, dummy keys even; an element sorts after its own bucket dummy and no other bucket dummy lies in between (so it stays reachable after every doubling); parent(b) < b and dummy(parent) < dummy(b); hash % 2^k is the low-bit mask. The bucket count stays a power of two and never shrinks under rehash() and adjust_table_size() for any number of threads (SC).',
